@@ -1,3 +1,4 @@
+import tempfile
 import fcntl, hashlib, json, os, re, shutil, subprocess, sys, time
 
 VERIF = os.path.abspath(os.path.join(os.path.dirname(os.path.abspath(__file__)), "..", ".."))
@@ -132,11 +133,29 @@ def tlc_retry(workdir, module, cfg, **kw):
     return rc, out, wall
 
 
+_SPEC_SNAPSHOT = None
+
+
+def spec_snapshot():
+    """The specification as it was when this check started (one private copy per process): a check takes minutes and
+    stages the spec several times; somebody editing spec/ meanwhile must not change what it runs half-way."""
+    global _SPEC_SNAPSHOT
+    if _SPEC_SNAPSHOT is None:
+        d = tempfile.mkdtemp(prefix="specsnap-", dir=os.path.join(CACHE))
+        for f in os.listdir(os.path.join(VERIF, "spec")):
+            if f.endswith((".tla", ".cfg")):
+                shutil.copy(os.path.join(VERIF, "spec", f), os.path.join(d, f))
+        import atexit
+        atexit.register(shutil.rmtree, d, True)
+        _SPEC_SNAPSHOT = d
+    return _SPEC_SNAPSHOT
+
+
 def stage_spec(workdir):
     os.makedirs(workdir, exist_ok=True)
-    for f in os.listdir(os.path.join(VERIF, "spec")):
-        if f.endswith((".tla", ".cfg")):
-            shutil.copy(os.path.join(VERIF, "spec", f), os.path.join(workdir, f))
+    snap = spec_snapshot()
+    for f in os.listdir(snap):
+        shutil.copy(os.path.join(snap, f), os.path.join(workdir, f))
 
 
 TLC_STATS = re.compile(r"(\d+) states generated, (\d+) distinct states found")
